@@ -491,11 +491,13 @@ func (vt *Model) print(seq ansi.Print) {
 
 	switch {
 	case !vt.mode.decawm && vt.cursor.col+column(w) > vt.margin.right:
+	case vt.cursor.col+column(w) > vt.margin.right:
+		// We printed in the last column: the cursor stays on it and
+		// the wrap is deferred until the next print
+		vt.cursor.col = vt.margin.right
+		vt.lastCol = true
 	default:
 		vt.cursor.col += column(w)
-	}
-	if vt.cursor.col >= vt.margin.right+1 && vt.mode.decawm {
-		vt.lastCol = true
 	}
 }
 
